@@ -55,6 +55,8 @@ def queries(tier, prop='C14'):
     def add(entry, t, unwind, solver=None, budget=120, extra=None):
         n, ty, s, w = t
         cfg = {'T': ty, 'N': n, 'S': s, 'W': w, 'EMAX': emax}
+        if not quick:
+            cfg['PN'] = 33
         cfg.update(extra or {})
         out.append(dict(entry='q_' + entry, cfg=cfg, unwind=unwind, solver=solver or ('kissat' if w >= 32 else 'minisat'), budget=budget, ub=ub, nofunc=ub))
 
@@ -66,7 +68,7 @@ def queries(tier, prop='C14'):
             for e in BITOPS:
                 add(e, t, max(w, 32) + 2)   # libstdc++ <bit> uses the 32-bit builtins for the promoted types: ll_ctlz_32 etc. loop 32 times
             if w > 8:
-                add('byteswap_fb', t, 4)
+                add('byteswap_fb', t, 10)
         for e in EUCLID_SLICES:
             add(e, t, 6)
         if w == 8 or (w == 16 and not quick):
@@ -95,11 +97,14 @@ def queries(tier, prop='C14'):
     for tn, un in (('u8', 'u8'), ('i8', 'i8')):
         pair('gcd', tn, un, 15); pair('lcm', tn, un, 15); pair('gcd_std', tn, un, 20); pair('lcm_std', tn, un, 20)
     for tn, un in (('u8', 'i8'), ('i8', 'u8')):
-        pair('gcd', tn, un, 15); pair('lcm', tn, un, 15)
-    for tn, un in (('u8', 'u16'), ('u16', 'u8')):
-        pair('gcd', tn, un, 18)
+        pair('gcd', tn, un, 15)
         if not quick:
-            pair('lcm', tn, un, 18, budget=900)
+            pair('lcm', tn, un, 15, budget=1500)   # common type int: no verdict in 400 s on a loaded machine
+    pair('gcd', 'u8', 'u16', 18)
+    if not quick:
+        for tn, un in (('u8', 'i16'), ('i8', 'u16'), ('i8', 'i16')):
+            pair('gcd', tn, un, 18, budget=900)
+        pair('lcm', 'u8', 'u16', 18, budget=1500)
     add('byte_order8', TYPES[0], 4)
     add('byte_order16', TYPES[0], 4)
     add('byte_order32', TYPES[0], 6)
